@@ -11,9 +11,14 @@
           res = (panicked errkind consumed wanted maxcap)        for lo <= i < hi   (ReadPacket)
    case (12 fmt #template #tail lo hi)                          the length field set to every
         observed ((dec) (unzip) (res ...))                       value lo <= L < hi   (ReadPacket)
+   case (13 fmt #stream)                                        a real TcpConn (reader pump) on a
+        observed (nerr errkind (pkt ...) closed timedout late)   loopback connection is sent the stream
+          nerr = errors notified, errkind = kind of the first, pkts = frames delivered before it,
+          closed = the peer saw the connection closed, late = frames/errors after the first error,
+          timedout = 1: the scenario did not finish in time (inconclusive, no verdict)
    In a res, panicked = 2 means that the harness did not run the decoder (memory guard). *)
 From Coq Require Import Arith ZArith NArith List Bool.
-From FV Require Import Lib.Sx Lib.NList Lib.BE Lib.Crc32 C01.Model C01.RunLib.
+From FV Require Import Lib.Sx Lib.NList Lib.BE Lib.Crc32 C02.Model C01.RunLib.
 Import ListNotations.
 Open Scope N_scope.
 
@@ -159,6 +164,45 @@ Definition check_sweep (fmt : Z) (template tail : bytes) (lo hi : N) (obs : list
   | _ => VBad
   end.
 
+(* ---------------------------------------------------------------------------------- *)
+(* case 13: the reader pump of a connection *)
+
+Definition conn_end_code (e : conn_end) : Z :=
+  match e with Closed err => rerr_code err | Crashed => (-1)%Z | StillReading => (-2)%Z end.
+
+Fixpoint packets_eqb (a b : list packet) : bool :=
+  match a, b with
+  | [], [] => true
+  | x :: a', y :: b' => packet_eqb x y && packets_eqb a' b'
+  | _, _ => false
+  end.
+
+Definition check_conn (fmt : Z) (data : bytes) (obs : list sx) : verdict :=
+  match obs with
+  | [SInt nerr; SInt kind; SList pks; SInt closed; SInt timedout; SInt late] =>
+      if Z.eqb timedout 1 then VOk else
+      match map_opt sx_packet pks with
+      | Some got =>
+          let read := fun s => if Z.eqb fmt 1
+                               then read_packet_v1 (fun b => b) (fun _ => None) false s packet0
+                               else read_packet_v2 (fun b => b) (fun _ => None) false s packet0 in
+          let fuel := S (S (N.to_nat (lenN data / fmt_hs fmt))) in
+          let '(ds, e, _) := read_pump read fuel (one_chunk data) in
+          let corr :=
+            vall [ check_that (packets_eqb ds got) (VMismatch 7);
+                   check_that (Z.eqb (conn_end_code e) kind) (VMismatch 8) ] in
+          let prop :=
+            (* a decode error (or the end of the stream) closes the connection: exactly one
+               error is reported, the peer sees the close, nothing is delivered afterwards *)
+            vall [ check_that (Z.eqb nerr 1) (VPropFail 8);
+                   check_that (Z.eqb closed 1) (VPropFail 9);
+                   check_that (Z.eqb late 0) (VPropFail 10) ] in
+          vjoin prop corr
+      | None => VBad
+      end
+  | _ => VBad
+  end.
+
 Definition check (c : sx) : verdict :=
   match c with
   | SList [SList [SInt 10%Z; SInt fmt; SInt cipher; SInt _; SBytes data; chunks; SInt _; SInt expect];
@@ -181,5 +225,7 @@ Definition check (c : sx) : verdict :=
       check_damaged fmt cipher frame mode (Z.to_N lo) (Z.to_N hi) obs
   | SList [SList [SInt 12%Z; SInt fmt; SBytes template; SBytes tail; SInt lo; SInt hi]; SList obs] =>
       check_sweep fmt template tail (Z.to_N lo) (Z.to_N hi) obs
+  | SList [SList [SInt 13%Z; SInt fmt; SBytes data]; SList obs] =>
+      if Z.eqb fmt 1 || Z.eqb fmt 2 then check_conn fmt data obs else VBad
   | _ => VBad
   end.
